@@ -29,6 +29,7 @@ NS = {
     "text": "urn:oasis:names:tc:opendocument:xmlns:text:1.0",
     "office": "urn:oasis:names:tc:opendocument:xmlns:office:1.0",
     "draw": "urn:oasis:names:tc:opendocument:xmlns:drawing:1.0",
+    "xlink": "http://www.w3.org/1999/xlink",
 }
 TX = "{%s}" % NS["text"]
 INVARIANTS = ["ReadableKept", "SkeletonKept", "TwiceReadable"]
@@ -59,7 +60,10 @@ def tag_of(node, parent_kind, index) -> str:
     if k == "P":
         return TX + "p"
     if k == "T":
-        return TX + "note-citation" if parent_kind == "O" else TX + "span"
+        if parent_kind == "O":
+            return TX + "note-citation"
+        # the inline text elements alternate between span and link (both hold text)
+        return TX + "a" if (index + len(node["ch"]) + len(node["text"])) % 2 else TX + "span"
     if k == "C":
         return TX + "s"
     kids = node["ch"]
@@ -75,6 +79,9 @@ def build(node, parent=None, parent_kind="", index=0):
     el = etree.Element(tag, nsmap=NS) if parent is None else etree.SubElement(parent, tag)
     if tag == TX + "note":
         el.set(TX + "note-class", "footnote")
+    if tag == TX + "a":
+        el.set("{http://www.w3.org/1999/xlink}href", "http://example.org/")
+        el.set("{http://www.w3.org/1999/xlink}type", "simple")
     el.text = chars(node["text"])
     el.tail = chars(node["tail"])
     for i, c in enumerate(node["ch"]):
